@@ -7,6 +7,7 @@ Scratch copies live under a fresh mkdtemp and are removed immediately."""
 import glob, json, os, shutil, subprocess, sys, tempfile
 V = '/verif'
 want = set(a for a in sys.argv[1:] if a.startswith('C'))
+EVIDENCE = '--evidence' in sys.argv   # thorough tier: record the outcome in /verif/evidence/<id>.json, never fail the check
 cases = []
 for p in sorted(glob.glob(V + '/selftest/mutants/C*/*.patch')):
     cases.append((p.split('/')[-2], p, 1))
@@ -31,7 +32,7 @@ for prop, patch, expect in cases:
             shutil.copy(f, d)
         r = subprocess.run(['patch', '-s', '-p1', '-d', d, '-i', patch], capture_output=True, text=True)
         if r.returncode != 0:
-            rows.append((prop, patch, 'PATCH-FAILED ' + r.stdout[:100])); bad += 1
+            rows.append((prop, patch, 'PATCH-FAILED ' + r.stdout[:100])); bad += (0 if EVIDENCE else 1)
             continue
         out = tempfile.mkdtemp(prefix='selftest.out.')
         r = subprocess.run([V + '/bin/gobv', 'check', '-p', prop, '-repo', d, '-out', out], capture_output=True, text=True)
@@ -50,4 +51,21 @@ for prop, patch, expect in cases:
 for prop, patch, res in rows:
     print('%-4s %-60s %s' % (prop, patch.replace(V + '/', '')[-60:], res))
 print('selftest: %d ok, %d bad, %d skipped' % (ok, bad, skipped))
+if EVIDENCE:
+    for prop in sorted(want):
+        f = V + '/evidence/%s.json' % prop
+        try:
+            ev = json.load(open(f))
+        except Exception:
+            continue
+        mine = [(p, r) for (pp, p, r) in rows if pp == prop]
+        ev.setdefault('coverage', {})['selftest'] = {
+            'what': 'must-fail corpus (mutants, seeded changes, reverts of fix: commits) and must-pass corpus (harmless refactors) applied to scratch copies of the current tree; informational, does not change the exit code',
+            'must_fail_caught': sum(1 for p, r in mine if r.startswith('OK caught')),
+            'must_pass_quiet': sum(1 for p, r in mine if r.startswith('OK quiet')),
+            'not_as_expected': [p.replace(V + '/', '') for p, r in mine if r.startswith('MISSED')],
+            'patch_did_not_apply': [p.replace(V + '/', '') for p, r in mine if r.startswith('PATCH-FAILED')],
+        }
+        json.dump(ev, open(f, 'w'), indent=1)
+    sys.exit(0)
 sys.exit(1 if bad else 0)
